@@ -168,8 +168,8 @@ func c16DefinitelyDifferent(a, b c16Asg) bool {
 	return !straight && !crossed
 }
 
-var c16CallIDs = []string{"c", "c-a", "c-", "-c", "C"}
-var c16Tags = []string{"a", "b", "a-b", "b-", "A", "0"}
+var c16CallIDs = []string{"c", "c-a", "c-", "-c", "C", "-", "--"}
+var c16Tags = []string{"a", "b", "a-b", "b-", "A", "0", "-b", "-"}
 var c16URIs = []string{"sip:h", "sip:u@h", "sip:u@h:5070", "sip:u@h:5061", "sip:v@h", "sip:u@g", "sips:u@h", "tel:+1", "tel:+1;ext=2", "urn:service:sos"}
 
 func c16Styles(all bool) []c16Style {
@@ -315,7 +315,7 @@ func TestC16(t *testing.T) {
 			}
 		}
 		V.Exhaustive(complete && V.only == "")
-		V.Extra("exhaustive_subspace", fmt.Sprintf("5 Call-IDs x 6x6 tags x 10x10 URIs = 18000 assignments (split over shards) x %d renderings each", len(styles)))
+		V.Extra("exhaustive_subspace", fmt.Sprintf("7 Call-IDs x 8x8 tags x 10x10 URIs = 44800 assignments (split over shards) x %d renderings each", len(styles)))
 	})
 
 	genTok := rapid.StringMatching(`[a-zA-Z0-9]{1,3}(-?[a-zA-Z0-9.!%*_+~]{1,6}){0,3}`)
@@ -396,10 +396,38 @@ func TestC16(t *testing.T) {
 				*u += p.host + ":" + p.port
 			}
 		default:
-			// move a '-' between Call-ID and tag: the classic ambiguity
-			b.CallID = a.CallID + "-" + a.TagF
-			b.TagF = a.TagT
-			b.TagT = a.TagF
+			// move a '-' across the boundary between identifiers: the classic ambiguities
+			switch rapid.IntRange(0, 3).Draw(rt, "dashmove") {
+			case 0:
+				b.CallID = a.CallID + "-" + a.TagF
+				b.TagF = a.TagT
+				b.TagT = a.TagF
+			case 1:
+				a.CallID += "-"
+				b.CallID = strings.TrimSuffix(a.CallID, "-")
+				b.TagF = "-" + a.TagF
+				id, msg = c16Group(a, []c16Style{s1, s2})
+				if msg != "" {
+					failf(rt, "%s", msg)
+				}
+			case 2:
+				a.TagF += "-"
+				b = a
+				b.TagF = strings.TrimSuffix(a.TagF, "-")
+				b.CallID = a.CallID
+				b.TagT = "-" + a.TagT
+				id, msg = c16Group(a, []c16Style{s1, s2})
+				if msg != "" {
+					failf(rt, "%s", msg)
+				}
+			default:
+				a.CallID = "--" + a.CallID
+				b.CallID = "-" + strings.TrimPrefix(a.CallID, "--") + "-"
+				id, msg = c16Group(a, []c16Style{s1, s2})
+				if msg != "" {
+					failf(rt, "%s", msg)
+				}
+			}
 		}
 		V.Class(fmt.Sprintf("edit:%d", which))
 		V.ClassIf(a.UriF == a.UriT, "equal URIs both sides")
